@@ -327,7 +327,7 @@ def _borrowed(modname, fname):
 # a subscribe call that is executing at stop() is answered by PendingSubscriptionSink::accept itself (the per-message task
 # does not send subscription answers): the answer must be on the connection queue before the call future resolves and
 # releases the pending-call token (C04.R1 accept ordering); the writer is joined (C04.R6)
-BORROWED = [_borrowed("c04", "r1_typestate"), _borrowed("c04", "r6_single_writer")]
+BORROWED = [_borrowed("c04", "r1_typestate"), _borrowed("c04", "r6_single_writer"), _borrowed("c04", "r10_lossy_sends_are_the_api_only")]
 
 
 
